@@ -20,7 +20,7 @@ def one(sid, tier, jobs):
     for chk in meta['checks_tried']:
         env = dict(os.environ, VERIF_JOBS=str(jobs), SHOW='3')
         r = subprocess.run([os.path.join(HERE, 'tools', 'try_mutant.sh'), os.path.join(d, 'patch.diff'), tier, chk],
-                           capture_output=True, text=True, env=env)
+                           capture_output=True, text=True, errors='replace', env=env)
         first = r.stdout.strip().split('\n')[0] if r.stdout.strip() else r.stderr.strip()[:200]
         lines.append('%s %s' % (sid, first))
         if 'rc=1' in first:
